@@ -67,6 +67,22 @@ def gen_query(rnd, f, single_metric_model=True):
     return dict(dims=dims, mets=mets, filters=filters)
 
 
+def gen_m2m_case(rnd):
+    """targeted family: a many_to_many through a junction, declared on one side; the metric sits on EITHER end (the declaring or the other side)
+    and the query reaches across the junction by a dimension or a filter -- several junction rows per end row fan the metric out"""
+    f = jg.gen_m2m_forest(rnd)
+    ends = ["ma", "mb"]
+    rnd.shuffle(ends)
+    base, other = ends
+    agg = rnd.choice(["sum", "count", "avg", "sum", "min"])
+    mets = [(base, agg, None if agg == "count" else jg.jcol("c0"), [])]
+    if rnd.random() < 0.4:
+        mets.append((base, "count", None, []))
+    if rnd.random() < 0.6:
+        return f, dict(dims=[(other, jg.jcol("s0"))] + ([(base, jg.jcol("s0"))] if rnd.random() < 0.4 else []), mets=mets, filters=[])
+    return f, dict(dims=[(base, jg.jcol("s0"))] if rnd.random() < 0.6 else [], mets=mets, filters=[(other, ("not", ("isnull", jg.jcol("id"))))])
+
+
 def gen_mixed_query(rnd, f):
     """a base-model metric with the other models referenced in the order [fan-out child, non-fan-out parent] (or the reverse): the
     fan-out verdict must be accumulated over ALL joined models, whichever comes last.  None when the forest has no such triple."""
@@ -169,6 +185,7 @@ def run(c):
         f = jg.gen_forest(c.rng)
         q = gen_mixed_query(c.rng, f) if c.rng.random() < 0.25 else None
         cases.append((f, q or gen_query(c.rng, f, single_metric_model=c.rng.random() < 0.7)))
+    cases += [gen_m2m_case(c.rng) for _ in range(max(10, n // 10))]
     cf = jg.corpus_forest()
     cases[:0] = [
         (cf, dict(dims=[("mb", jg.jcol("s0"))], mets=[("ma", "sum", jg.jcol("c0"), [])], filters=[])),                       # K1: non-base metric through many_to_one
